@@ -50,6 +50,13 @@ def t_expect(ctx):
     c = ctx.int('c', 0, pm) if variant == 'predicate_raises' else None
     tcr = ctx.cfg.get('tc_range', ['0', '3/5'])
     t_c = ctx.real('t_c', Exact(tcr[0]), Exact(tcr[1])) if variant == 'cancel' else None
+    late = None
+    if ctx.cfg.get('tie'):
+        # the cancellation (or, for variant basic, the time-out) arrives at the very instant a candidate event is dispatched, and one
+        # timer of the run is noticed up to 4 loop iterations late
+        late = (int(ctx.int('late_idx', 0, ctx.cfg.get('max_idx', 16))), int(ctx.int('late_k', 0, 4)))
+        if variant == 'cancel':
+            t_c = t0 - t_e if ctx.cfg['tie'] == 'first' else t0 + g1 - t_e
     a2 = ctx.int('a2', 0, pm) if variant == 'two' else None
     T_EV = Exact('1/5')
     dsr = ctx.cfg.get('ds_range', ['0', '2/5'])
@@ -60,6 +67,8 @@ def t_expect(ctx):
     TAU = Exact(ctx.cfg['tau']) if 'tau' in ctx.cfg else globals()['TAU']      # 0 / negative: the poll idiom, an already expired deadline
     ctx.new_loop(horizon=5)
     loop = ctx.loop
+    if late is not None and late[1] > 0:
+        loop.late_timer = late
     bus = ctx.bus('A')
     seen = []    # (event, seq, time) in processing order
     idx_of = {}
@@ -273,6 +282,7 @@ def jobs(tier):
             out.append(Job('C18', 's1.expect', t_expect, dict(variant='slow_timeout', sym_te=False, t_e='0', pmax=1, ds_range=rng)))
         out.append(Job('C18', 's1.expect', t_expect, dict(variant='override', sym_te=False, t_e='0', pmax=1)))
         out.append(Job('C18', 's1.expect', t_expect, dict(variant='two', sym_te=False, t_e='0', pmax=0, warn_error=True, pin_g1='1/10')))
+        out.append(Job('C18', 's1.expect', t_expect, dict(variant='cancel', sym_te=False, t_e='0', pmax=0, tie='first', pin_g1='1/10')))
         for tau in ('0', '-1/10'):
             out.append(Job('C18', 's1.expect', t_expect, dict(variant='basic', sym_te=True, pmax=0, tau=tau, pin_g1='1/10'), witnesses=('timeout',)))
         out.append(Job('C18', 's1.expect', t_expect, dict(variant='clear_during', sym_te=False, t_e='0', pmax=0), witnesses=('cleared while pending',)))
@@ -282,6 +292,8 @@ def jobs(tier):
     else:
         for tau in ('0', '-1/10'):
             out.append(Job('C18', 's1.expect', t_expect, dict(variant='basic', sym_te=True, pmax=1, tau=tau), witnesses=('timeout',)))
+        out.append(Job('C18', 's1.expect', t_expect, dict(variant='cancel', sym_te=False, t_e='0', pmax=0, tie='second', pin_g1='1/10')))
+        out.append(Job('C18', 's1.expect', t_expect, dict(variant='basic', sym_te=False, t_e='0', pmax=0, tie='first', pin_t0='3/10', pin_g1='1/10')))
         for v in ('basic', 'predicate_raises', 'two', 'cancel', 'slow_timeout', 'override', 'clear_during', 'blocked'):
             out.append(Job('C18', 's1.expect', t_expect, dict(variant=v, sym_te=True), max_paths=20000))
             for te in ('0', '1/10', '1/4', '2/5'):
